@@ -14,6 +14,8 @@ lemmas are proved (Properties/C10.lean); the RUNTIME part is validated here:
             with a DIRECT Python evaluation of the same C++ index expressions on random parameters;
   * zoomshift  the elements the REAL zoom_shift reads at every output position (support of the outputs for one-hot
             inputs, prefilter off; orders 0 and 5 by a valid direct call of the entry point) against the model's index list.
+  * round 3 (harness/props/c10_misc.py): histogram, lbp map, bbox, relabel / remove_regions, distance_multi — `model2` cases
+            against a direct Python evaluation, `miscreal` cases against the results of the real binary.
 """
 from __future__ import annotations
 import inspect, json
@@ -27,7 +29,7 @@ RULE = ('corpus; sweep = every public function with native code behind it x vali
         'dtypes, 7 layouts, axis lengths 1..40, structuring elements/kernels/templates smaller than, equal to and larger than the image), each '
         'under ASan and twice with differently filled freed heap; filter = one-hot probing of the filter iterator against the Lean closed form; '
         'model = executable bounds checkers on random parameters; model2 = round-2 index models against a direct Python evaluation of the C++ index '
-        'expressions; zoomshift = elements read by the real zoom_shift (one-hot probing) against the model. Non-trivial = the call reached native code and returned a value; '
+        'expressions; zoomshift = elements read by the real zoom_shift (one-hot probing) against the model; miscreal = results of the round-3 models against the real binary. Non-trivial = the call reached native code and returned a value; '
         'distinct = distinct (function, argument specs).')
 ASSUMPTIONS = ['documented domain: at least one element per axis, supported dtypes (bool, 8 integer types, float32/64), neighbourhoods of the '
                'rank of the image, labels non-negative, scalar parameters in range, finite values',
